@@ -513,7 +513,7 @@ class Fresh(object):
             for ne in (False, True):
                 st, spec = guarded(lambda: asn1tools.compile_string(self.text, codec, numeric_enums=ne), patience=15)
                 if st != 'ok':
-                    self.out[(codec, ne)] = {'st': 'exc', 'msg': str(spec), 'beh': {}}
+                    self.out[(codec, ne)] = {'st': st, 'msg': str(spec), 'beh': {}}
                     self.bytes[(codec, ne)] = {}
                     continue
                 b0 = behaviour(spec, modname, codec, ne, None)
